@@ -194,8 +194,15 @@ func genC08(p *Plan, tier string) {
 	}
 	base := q.Body
 	delete(base, "biases")
-	seed := float64(r.Int63() % (1 << 40))
-	base["biasApplyRandomSeed"] = seed
+	// the seed is the documented default 0 (given or omitted) in a good share of the runs
+	switch r.Intn(4) {
+	case 0:
+		base["biasApplyRandomSeed"] = 0.0
+	case 1:
+		delete(base, "biasApplyRandomSeed")
+	default:
+		base["biasApplyRandomSeed"] = float64(r.Int63() % (1 << 40))
+	}
 	// biases that keep every later step applicable whatever subset fires
 	safe := []string{"fatigue", "preferenceReversal", "anchoring", "criteriaConcealment", "fatigue", "preferenceReversal"}
 	n := r.Range(0, 6)
@@ -308,6 +315,43 @@ func genC08(p *Plan, tier string) {
 	for i, x := range list {
 		if !x.meta.Disabled {
 			enabledIdx = append(enabledIdx, i)
+		}
+	}
+	// M: nothing but the seed, the position and the bias's own probability decides about firing -
+	// not the method's own parameters either (its randomSeed is a different seed)
+	{
+		b := CloneJ(base).(map[string]interface{})
+		if mp := jmap(b["methodParameters"]); mp != nil {
+			mp["randomSeed"] = float64(r.Range(1, 1000000))
+		}
+		var arr []interface{}
+		for _, x := range list {
+			arr = append(arr, CloneJ(x.e))
+		}
+		if arr == nil {
+			arr = []interface{}{}
+		}
+		b["biases"] = arr
+		metaM := *metaA
+		metaM.FiresLike = nil
+		pos := 0
+		for _, e := range metaM.Entries {
+			if !e.Disabled {
+				metaM.FiresLike = append(metaM.FiresLike, FireRel{Pos: pos, Other: "A", OtherPos: pos})
+				pos++
+			}
+		}
+		p.Ops = append(p.Ops, &Op{Kind: "http", ID: "M", Req: raw(b), MapOrder: mo, Expect: &Expect{C08: &metaM}})
+		// an omitted seed is the seed 0
+		if v, ok := base["biasApplyRandomSeed"]; !ok || v == 0.0 {
+			b2 := CloneJ(base).(map[string]interface{})
+			if ok {
+				delete(b2, "biasApplyRandomSeed")
+			} else {
+				b2["biasApplyRandomSeed"] = 0.0
+			}
+			b2["biases"] = CloneJ(arr)
+			p.Ops = append(p.Ops, &Op{Kind: "http", ID: "K", Req: raw(b2), MapOrder: mo, Expect: &Expect{C08: metaA, SameAs: "A"}})
 		}
 	}
 	// B: disabled entries removed and other disabled ones inserted: byte-identical
